@@ -112,7 +112,7 @@ def build_graph(gen_out, max_ops):
         if sn < max_ops:
             testable.add(s)
         if act["name"] == "NextBlock":
-            key = (-1, bool(act["restart"]))
+            key = (-1, False)      # with and without restart are the same abstract edge; the harness alternates
         else:
             oi = opidx[json.dumps(norm_op(act), sort_keys=True)]
             key = (oi, False)
